@@ -80,12 +80,13 @@ Proof. split; vm_compute; reflexivity. Qed.
 Lemma split_other_dim_refuted :
   raises (run1 (OSplit 1 (DKw 1%Z)) b3) EAssert = true /\ raises (run1 (OTSplitI [1] (DPos 1%Z)) b3) EAssert = true.
 Proof. split; vm_compute; reflexivity. Qed.
-(* 6. batch[...] and the narrow method give every entry the grid of image 0; masks index the grids with True/False *)
+(* 6. batch[...] gives every entry the grid of image 0; masks index the grids with True/False *)
 Lemma getitem_ellipsis_refuted : res_ok [0; 1; 2] (run1 (OGetItem (GOne IEll)) b3) = false.
 Proof. vm_compute. reflexivity. Qed.
 Lemma getitem_mask_refuted : res_ok [0; 1; 2] (run1 (OGetItem (GOne (IBools [true; false; true]))) b3) = false.
 Proof. vm_compute. reflexivity. Qed.
-Lemma narrow_method_refuted : res_ok [0; 1; 2] (run1 (ONarrowM 0%Z 1 2) b3) = false.
+(* the narrow method with a negative dimension narrows the data along the batch dimension but keeps all grids *)
+Lemma narrow_method_negative_dim_refuted : res_ok [0; 1; 2] (run1 (ONarrowM (-4)%Z 1 2) b3) = false.
 Proof. vm_compute. reflexivity. Qed.
 (* 7. FlowFields: the batch size is not compared with the number of grids; the split family raises;
       copy.copy raises; from_images forgets the axes *)
